@@ -127,6 +127,7 @@ type Explorer struct {
 	kinds      []DecKind
 	pc         []*Term
 	pcKeys     map[TermKey]bool
+	bound      Model
 	model      Model
 	modelValid bool
 	forks      []WorkItem
@@ -157,6 +158,7 @@ func (e *Explorer) reset(item WorkItem) {
 	e.taken, e.kinds = e.taken[:0], e.kinds[:0]
 	e.pc = e.pc[:0]
 	e.pcKeys = map[TermKey]bool{}
+	e.bound = Model{}
 	e.model = item.Model
 	e.modelValid = false
 	e.forks = nil
@@ -213,6 +215,38 @@ func (e *Explorer) addPC(c *Term) {
 	}
 	e.pcKeys[k] = true
 	e.pc = append(e.pc, c)
+	// remember variables pinned to a constant: conditions over pinned
+	// variables only are decided by evaluation
+	if c.Op == OpEq {
+		a, b := c.Args[0], c.Args[1]
+		if b.Op == OpVar && a.IsConst() {
+			a, b = b, a
+		}
+		if a.Op == OpVar && b.IsConst() {
+			e.bound[a.Name] = b.U
+		}
+	} else if c.Op == OpVar && c.Sort == SBool {
+		e.bound[c.Name] = 1
+	} else if c.Op == OpNot && c.Args[0].Op == OpVar {
+		e.bound[c.Args[0].Name] = 0
+	}
+}
+
+// evalBound evaluates c if all its variables are pinned to constants.
+func (e *Explorer) evalBound(c *Term) (bool, bool) {
+	if len(e.bound) == 0 {
+		return false, false
+	}
+	for _, v := range c.Vars() {
+		if _, ok := e.bound[v]; !ok {
+			return false, false
+		}
+	}
+	v, ok := Eval(c, e.bound)
+	if !ok {
+		return false, false
+	}
+	return v == 1, true
 }
 
 // slice returns the conjuncts of the path condition that are transitively
@@ -418,6 +452,12 @@ func (e *Explorer) DecideCond(conds []*Term, kind DecKind) int {
 	}
 	for i, c := range conds {
 		if !c.IsConst() && e.pcKeys[Not(c).Key()] {
+			continue
+		}
+		if v, ok := e.evalBound(c); ok {
+			if v {
+				feas = append(feas, fa{i, e.curModel()})
+			}
 			continue
 		}
 		res, m := e.sat(c, false)
